@@ -12,7 +12,8 @@ LT, remaining hop limit = its RHL, seconds = floor(ms / 1000) on every represent
 encoded one); RHL / MHL selection at every origination site (hops: 1/1 for single-hop packets and beacons, otherwise
 RHL = the requested limit when above 1 else itsGnDefaultHopLimit and MHL the same value; CommonHeader MHL = 1 exactly
 for TSB / SINGLE_HOP, else the request's; on the wire only the NH field of an initialised Basic Header is re-stamped -
-no later set_rhl / set_lt); that the Basic Header's set_* / with_* copies keep every other field (copy-faithful); the
+no later set_rhl / set_lt); that the Basic Header's set_* / with_* copies keep every other field, and a Basic Header rebuilt by
+the constructor from a received one passes every field on (copy-faithful); the
 RHL <= MHL guard in front of every receive handler call of the dispatcher (rhl-le-mhl).
 Does not decide bit positions of LT / RHL / MHL (C02.layout), lifetimes above 7 000 000 ms, nor ageing of a lifetime
 while a packet waits in a buffer (timing).
@@ -528,6 +529,39 @@ def emitted_basic_header(ctx):
     if n < 7:
         raise AnalysisError(f"C20: {n} originated packets recognised (confirmed: 9)")
     G.check_copy_methods(ctx, "C20.copy-faithful", ["geonet.basic_header.BasicHeader"])
+    # a Basic Header rebuilt from a received one (`BasicHeader(version=bh.version, ...)`) carries EVERY field over: a field left
+    # out falls back to its default - RHL 0 / LT default - and the hop-limit and lifetime checks behind it can no longer fire
+    dispatch = [x for x in router.methods.values() if x.name in ("process_security_header", "process_basic_header", "process_common_header")]
+    n_disp = 0
+    for m in router.methods.values():
+        fl = ctx.flows.get(m)
+        for c in P.calls_in(m):
+            tg = P.call_targets(m, c, count=False)
+            if any(t in dispatch for t in tg):
+                n_disp += 1
+            if not any(isinstance(t, ClassInfo) and t is bh_cls for t in tg):
+                continue
+            kws = {k.arg: k.value for k in c.keywords if k.arg}
+            names = [nm for nm, (ann, _) in bh_cls.fields.items() if ann is not None]
+            for i_, a in enumerate(c.args):
+                if i_ < len(names):
+                    kws[names[i_]] = a
+            srcs = set()
+            for v in kws.values():
+                if isinstance(v, ast.Attribute) and v.attr in names:
+                    ts = {t for t in P.expr_types(m, v.value) if isinstance(t, str)}
+                    if bh_cls.qual in ts:
+                        srcs.add(sem.cx(v.value))
+            if not srcs:
+                continue                      # not built from another Basic Header
+            missing = [f for f in names if f not in kws and f != "reserved"]
+            ctx.ob("C20.copy-faithful", m.short(), f"rebuilt-from:{sorted(srcs)[0]}", not missing,
+                   f"the Basic Header rebuilt from `{sorted(srcs)[0]}` passes every field on" if not missing else
+                   f"the Basic Header rebuilt from `{sorted(srcs)[0]}` leaves out {missing}: they fall back to their defaults (RHL 0, default "
+                   "lifetime), so the received hop limit / lifetime are lost for everything behind this point (the RHL <= MHL check cannot "
+                   "fire, forwarded copies restart their budget)", f"{m.module.rel}:{c.lineno}")
+    if n_disp < 3:
+        raise AnalysisError(f"C20: only {n_disp} calls of the receive dispatchers found (confirmed: 4)")
     ctx.floor("C20.copy-faithful", 20)
 
 
